@@ -51,6 +51,18 @@ func qerr(err error) string {
 	return "err"
 }
 
+// wait for the goroutines of a round, but not for ever: a call that never returns must end as a "stuck" line, not as a hung driver
+func waitBounded(wg *sync.WaitGroup, d time.Duration) bool {
+	done := make(chan struct{})
+	go func() { wg.Wait(); close(done) }()
+	select {
+	case <-done:
+		return true
+	case <-time.After(d):
+		return false
+	}
+}
+
 func c07Round(w *ndWriter, seed int64, C, B, P, Cn, n int, loaderUs int) int {
 	rng := rand.New(rand.NewSource(seed))
 	rec := &recorder{}
@@ -114,7 +126,10 @@ func c07Round(w *ndWriter, seed int64, C, B, P, Cn, n int, loaderUs int) int {
 			}
 		}(c, rng.Int63())
 	}
-	wg.Wait()
+	if !waitBounded(&wg, 10*time.Second) {
+		rec.ev(E{"ev": "stuck", "thr": "-", "op": "call", "v": 1, "r": "-"}) // a call of this round never came back
+		return rec.flush(w)
+	}
 	// producers have stopped: repeated Take/Poll must retrieve every accepted item without any further Offer
 	if C >= 1 {
 		deadline := time.Now().Add(5 * time.Second)
@@ -174,6 +189,70 @@ func c07Fresh(w *ndWriter, C, B, K int, loaderUs int) int {
 	n := rec.flush(w)
 	q.Close()
 	return n
+}
+
+// the last item: one value is in the queue, K goroutines released together each call Poll once.  Exactly one gets it, the others
+// report empty - and ALL of them return (Poll never blocks).  A call that has not come back within the wait is a stuck line.
+func c07LastItem(w *ndWriter, plain bool, C, K int) int {
+	rec := &recorder{}
+	var poll func() (int, error)
+	var offer func(int) error
+	B := 0
+	if plain {
+		q := fpgo.NewChannelQueue[int](C)
+		poll, offer = q.Poll, q.Offer
+	} else {
+		B = 2
+		q := fpgo.NewBufferedChannelQueue[int](C, B, 2).SetLoadFromPoolDuration(50 * time.Microsecond)
+		defer q.Close()
+		poll, offer = q.Poll, q.Offer
+	}
+	rec.ev(E{"ev": "reset", "thr": "-", "op": "-", "v": 0, "r": "-", "c": C, "b": B})
+	rec.ev(E{"ev": "inv", "thr": "p1", "op": "offer", "v": 1001, "r": "-"})
+	err := offer(1001)
+	rec.ev(E{"ev": "res", "thr": "p1", "op": "offer", "v": 1001, "r": qerr(err)})
+	type pr struct {
+		k   int
+		v   int
+		err error
+	}
+	var ready, start int32
+	out := make(chan pr, K)
+	for k := 0; k < K; k++ {
+		rec.ev(E{"ev": "inv", "thr": fmt.Sprintf("c%d", k+1), "op": "poll", "v": 0, "r": "-"})
+		go func(k int) {
+			atomic.AddInt32(&ready, 1)
+			for atomic.LoadInt32(&start) == 0 {
+			}
+			v, err := poll()
+			out <- pr{k, v, err}
+		}(k)
+	}
+	for atomic.LoadInt32(&ready) < int32(K) {
+		runtime.Gosched()
+	}
+	atomic.StoreInt32(&start, 1)
+	got := 0
+	deadline := time.After(600 * time.Millisecond)
+wait:
+	for got < K {
+		select {
+		case r := <-out:
+			got++
+			rec.ev(E{"ev": "res", "thr": fmt.Sprintf("c%d", r.k+1), "op": "poll", "v": r.v, "r": qerr(r.err)})
+		case <-deadline:
+			break wait
+		}
+	}
+	if got < K {
+		rec.ev(E{"ev": "stuck", "thr": "-", "op": "poll", "v": K - got, "r": "-"}) // Poll calls that never came back
+		for i := got; i < K; i++ {                                                 // release them
+			offer(9000 + i)
+		}
+	} else {
+		rec.ev(E{"ev": "quiesce", "thr": "-", "op": "-", "v": 0, "r": "-"})
+	}
+	return rec.flush(w)
 }
 
 // ---- hook-level recording for Trace_BQueueHook.tla: every hook point of the queue under test is logged with the role of
@@ -414,7 +493,10 @@ func c07ChanRound(w *ndWriter, seed int64, C, P, Cn, n int) int {
 			}
 		}(c, rng.Int63())
 	}
-	wg.Wait()
+	if !waitBounded(&wg, 10*time.Second) {
+		rec.ev(E{"ev": "stuck", "thr": "-", "op": "call", "v": 1, "r": "-"}) // a call of this round never came back
+		return rec.flush(w)
+	}
 	for len(q) > 0 {
 		rec.ev(E{"ev": "inv", "thr": "d", "op": "poll", "v": 0, "r": "-"})
 		v, err := q.Poll()
@@ -455,6 +537,10 @@ func c07Main(args []string) error {
 			if r%12 == 5 {
 				m := r / 12
 				events += c07BlockedTakers(w, 1+m%2, 3+m%4, []int{20000, 1000, 5000}[m%3], m%4 != 3)
+			} else if r%9 == 2 {
+				for t := 0; t < 40; t++ {
+					events += c07LastItem(w, t%2 == 0, 1+t%3, 2+t%3)
+				}
 			} else if r%9 == 4 {
 				events += c07Fresh(w, c[0], c[1]+5, 2+r%6, []int{0, 1, 1000}[r%3])
 			} else if r%9 == 8 {
